@@ -589,6 +589,15 @@ def cross_names(lang):
     return _kw_cache[key]
 
 
+def reverse_cross_names(lang):
+    """words that are NOT an identifier for the lexer of `lang` (keywords, builtins of the language) and are an
+    identifier for at least one other supported lexer - `new`, `delete`, `requires` for C++ (identifiers in C) ..."""
+    key = ("rcross", lang)
+    if key not in _kw_cache:
+        _kw_cache[key] = sorted({w for l2 in LANGS if l2 != lang for w in cross_names(l2) if not is_identifier_in(lang, w)})
+    return _kw_cache[key]
+
+
 def names_are_identifiers(lang, o, text=None):
     """every function of the generated program is named by an identifier token of the language's lexer on its name line
     (the canonical fragment speaks of NAMED functions; a pool word can be a keyword in a context the pool test missed)"""
@@ -734,3 +743,92 @@ def guarded_scan_many(cases, limit, workers=16):
     finally:
         ex.shutdown(wait=False, cancel_futures=True)
     return out
+
+
+# ---- file-size ladder: a file of exactly n characters whose functions consist of tokens that span several lines --------
+
+# per language: the multi-line tokens a body line can hold (each written at the body's indentation `%(i)s`; %(k)d numbers it)
+_ML_FORMS = {
+    "Python": ['%(i)s"""Describe resource %(k)d.\n\n%(i)sArgs:\n%(i)s    a: the first\n%(i)s    b: the second\n%(fill)s%(i)s"""\n',
+               "%(i)sx = '''first %(k)d\n%(fill)ssecond'''\n",
+               '%(i)sy = f(a, """one\n%(fill)stwo""", b)\n'],
+    "C": ['%(i)sconst char *s%(k)d = "first \\\n%(fill)ssecond";\n', '%(i)sx = a + /* spread\n%(fill)s%(i)s   over lines */ b;\n'],
+    "C++": ['%(i)sconst char *s%(k)d = R"(first\n%(fill)ssecond)";\n', '%(i)sx = a + /* spread\n%(fill)s%(i)s   over lines */ b;\n'],
+    "C#": ['%(i)svar s%(k)d = @"first\n%(fill)ssecond";\n', '%(i)sx = a + /* spread\n%(fill)s%(i)s   over lines */ b;\n'],
+    "Java": ['%(i)sString s%(k)d = """\n%(fill)s%(i)s    second""";\n', '%(i)sx = a + /* spread\n%(fill)s%(i)s   over lines */ b;\n'],
+    "JavaScript": ['%(i)sconst s%(k)d = `first\n%(fill)ssecond ${a}`;\n', '%(i)sx = a + /* spread\n%(fill)s%(i)s   over lines */ b;\n'],
+    "TypeScript": ['%(i)sconst s%(k)d: string = `first\n%(fill)ssecond`;\n', '%(i)sx = a + /* spread\n%(fill)s%(i)s   over lines */ b;\n'],
+}
+_ML_HEAD = {"Python": "%(i)sdef describe_%(k)d(a, b):\n", "C": "int describe_%(k)d(int a, int b) {\n", "C++": "int describe_%(k)d(int a, int b) {\n",
+            "C#": "%(i)sint Describe%(k)d(int a, int b) {\n", "Java": "%(i)sint describe%(k)d(int a, int b) {\n",
+            "JavaScript": "function describe%(k)d(a, b) {\n", "TypeScript": "function describe%(k)d(a: number, b: number): number {\n"}
+_ML_WRAP = {"C#": ("class Client {\n", "}\n", "  "), "Java": ("class Client {\n", "}\n", "  "), "Python": ("class Client:\n", "", "    ")}
+
+
+def multiline_text(desc):
+    """desc {language, chars, gen_seed, ...} -> a program of EXACTLY `chars` characters made of functions whose bodies are
+    tokens that span several lines (doc strings, multi-line string literals, template / verbatim / raw strings, block
+    comments inside statements): wherever such a file is cut, the cut most probably falls inside a token"""
+    import random
+    lang, n = desc["language"], desc["chars"]
+    rnd = random.Random(desc["gen_seed"])
+    wrap = _ML_WRAP.get(lang) if rnd.random() < 0.5 or lang in ("C#", "Java") else None
+    ind = wrap[2] if wrap else ""
+    body_ind = ind + ("    " if lang == "Python" else "  ")
+    parts = [wrap[0]] if wrap else []
+    size = len(parts[0]) if parts else 0
+    closing = wrap[1] if wrap else ""
+    k = 0
+    while True:
+        k += 1
+        fn = [_ML_HEAD[lang] % {"i": ind, "k": k}]
+        for _ in range(rnd.randint(1, 3)):
+            form = rnd.choice(_ML_FORMS[lang])
+            fill = "".join("%sline %d of the text\n" % (body_ind, j) for j in range(rnd.choice([0, 2, 10, 40])))
+            fn.append(form % {"i": body_ind, "k": k, "fill": fill})
+        fn.append("%sreturn a\n" % body_ind if lang == "Python" else "%sreturn a;\n%s}\n" % (body_ind, ind))
+        fn = "".join(fn)
+        if size + len(fn) + len(closing) > n and k > 1:
+            break
+        parts.append(fn); size += len(fn)
+        if size + len(closing) >= n:
+            break
+    text = "".join(parts) + closing
+    if len(text) < n:
+        # pad INSIDE the last multi-line token (in front of its last line), so that the file ends with code
+        pad = n - len(text)
+        at = text.rfind("\n", 0, text.rfind("\n", 0, len(text) - len(closing) - (len(body_ind) + 12))) + 1
+        filler = ("x" * 78 + "\n") * (pad // 79) + ("y" * (pad % 79 - 1) + "\n" if pad % 79 else "")
+        text = text[:at] + filler + text[at:]
+    return text[:n] if len(text) > n else text
+
+
+def file_size_rungs(ctx, quick=(1000, 10 ** 4, 10 ** 5), thorough_hi=3162278, novel_hi=4 * 10 ** 6):
+    """file sizes in characters: geometric rungs plus n-1, n, n+1, 2n for every integer literal new in the source"""
+    from gen import srcdict
+    return sorted(set(ctx.pick(list(quick), rungs(1000, thorough_hi))) | set(srcdict.novel_rungs(1000, novel_hi)))
+
+
+# ---- ties: files with several functions of EQUAL length above the reporting thresholds -------------------------------
+
+_TIE = {"Python": ("", "def %s(a):\n", "    x = %d\n", "", ""), "C": ("", "int %s(int a) {\n", "  x = %d;\n", "}\n", ""), "C++": ("", "int %s(int a) {\n", "  x = %d;\n", "}\n", ""),
+        "C#": ("class K {\n", "  int %s(int a) {\n", "    x = %d;\n", "  }\n", "}\n"), "Java": ("class K {\n", "  int %s(int a) {\n", "    x = %d;\n", "  }\n", "}\n"),
+        "JavaScript": ("", "function %s(a) {\n", "  x = %d;\n", "}\n", ""), "TypeScript": ("", "function %s(a: number): number {\n", "  x = %d;\n", "}\n", "")}
+
+
+def tie_program(lang, names_lengths):
+    """[(name, length)] -> (text, gaps): one function per entry with exactly `length` code lines, in the given order;
+    gaps = the line counts after which whole lines can be inserted between the functions (0 = above everything)"""
+    pre, head, stmt, close, post = _TIE[lang]
+    lines = [pre] if pre else []
+    gaps = [0] + ([1] if pre else [])
+    for (name, n) in names_lengths:
+        body = n - 1 - (1 if close else 0)
+        lines.append(head % name)
+        lines += [stmt % i for i in range(max(1, body))]
+        if close:
+            lines.append(close)
+        gaps.append(len(lines))
+    if post:
+        lines.append(post)
+    return "".join(lines), gaps
